@@ -104,6 +104,17 @@ func c07URLs(assets []app.VerifAsset, r *Rng, per int) []string {
 	return urls
 }
 
+// c07HostNoise: requests that name the server differently (Host header): what a later request gets must not depend on them
+func c07HostNoise(s *app.Server) {
+	for _, hst := range []string{"noise.example:8888", "127.0.0.1:9999", "[::1]:8888"} {
+		for _, u := range []string{"/livesim2/testpic_2s/Manifest.mpd?nowMS=90000", "/livesim2/utc_head/testpic_2s/Manifest.mpd?nowMS=90000", "/livesim2/eccp_cenc/testpic_2s/Manifest.mpd?nowMS=90000"} {
+			req := httptest.NewRequest("GET", u, nil)
+			req.Host = hst
+			serveGuarded(s.LiveRouter, req)
+		}
+	}
+}
+
 // c07Noise: requests that must not influence later answers: ingest sessions (incl. generated subtitles), errors, pages.
 func c07Noise(s *app.Server, r *Rng, assets []app.VerifAsset) {
 	sr := newScriptedReceiver()
@@ -128,14 +139,7 @@ func c07Noise(s *app.Server, r *Rng, assets []app.VerifAsset) {
 		apiCall(s, "GET", "/api/cmaf-ingests/"+id, nil)
 		apiCall(s, "DELETE", "/api/cmaf-ingests/"+id, nil)
 	}
-	// requests that name the server differently (Host header): what a later request gets must not depend on them
-	for _, hst := range []string{"noise.example:8888", "127.0.0.1:9999", "[::1]:8888"} {
-		for _, u := range []string{"/livesim2/testpic_2s/Manifest.mpd?nowMS=90000", "/livesim2/utc_head/testpic_2s/Manifest.mpd?nowMS=90000", "/livesim2/eccp_cenc/testpic_2s/Manifest.mpd?nowMS=90000"} {
-			req := httptest.NewRequest("GET", u, nil)
-			req.Host = hst
-			serveGuarded(s.LiveRouter, req)
-		}
-	}
+	c07HostNoise(s)
 	for _, u := range []string{"/livesim2/annexI_a/testpic_2s/Manifest.mpd?nowMS=1000", "/livesim2/eccp_foo/testpic_2s/V300/init.mp4?nowMS=1000", "/livesim2/periods_7/testpic_2s/Manifest.mpd?nowMS=100000",
 		"/livesim2/statuscode_[{cycle:30,rsq:0,code:404}]/testpic_2s/V300/15.m4s?nowMS=40000", "/livesim2/traffic_u2d2/testpic_2s/bu0/V300/15.m4s?nowMS=40000"} {
 		serveURL(s, u)
@@ -220,6 +224,11 @@ func genC07(c *Ctx) {
 		c.Violate("start", "fresh server: "+fresh.err.Error(), []string{"# start"}, nil)
 	} else {
 		check("fresh server instance", fresh.s, shuffled())
+	}
+	// a fresh instance whose very first requests came under another Host name
+	if fresh2 := startServer(vodRoot(), "", false); fresh2.err == nil {
+		c07HostNoise(fresh2.s)
+		check("fresh server instance after requests under other Host names", fresh2.s, shuffled())
 	}
 	// cache-loaded instance: one instance scans and writes the representation metadata, the next one starts from it
 	if cdir, err := os.MkdirTemp(workDir(), "c07cache"); err == nil {
